@@ -798,6 +798,38 @@ def directive_heavy(rng, n):
     return "\n".join(out) + "\n"
 
 
+def directive_ladders(rng, depths):
+    """deep nestings of conditional blocks in every branch position (first, middle, last), elseif chains and random
+    narrow trees: the number of passes is linear in the number of branches, so each of these must format quickly"""
+    out = []
+    for d in depths:
+        # nested in the last ({$ELSE}) branch: the hand-written else-if ladder of compiler-version include files
+        t = "".join("{$IFDEF A%d}\nF%d;\n{$ELSE}\n" % (i, i) for i in range(d)) + "G;\n" + "{$ENDIF}\n" * d
+        out.append(("ladder-else", d, t))
+        # nested in the first branch
+        t = "".join("{$IFDEF A%d}\nF%d;\n" % (i, i) for i in range(d)) + "".join("{$ELSE}\nG%d;\n{$ENDIF}\n" % i for i in range(d))
+        out.append(("ladder-if", d, t))
+        # nested in a middle ({$ELSEIF}) branch
+        t = "".join("{$IF A%d}\nF%d;\n{$ELSEIF B%d}\n" % (i, i, i) for i in range(d)) + "H;\n" + "".join("{$ELSE}\nG%d;\n{$IFEND}\n" % i for i in range(d))
+        out.append(("ladder-elseif", d, t))
+        # one long elseif chain
+        t = "{$IF A}\nF;\n" + "".join("{$ELSEIF B%d}\nF%d;\n" % (i, i) for i in range(d)) + "{$ELSE}\nG;\n{$ENDIF}\n"
+        out.append(("chain-elseif", d, t))
+        # random narrow tree: at every level one branch (chosen at random) holds the next level
+        def tree(k):
+            if k == 0:
+                return "X := %d;\n" % rng.randrange(100)
+            nb = rng.randrange(1, 4)
+            pos = rng.randrange(nb)
+            s_ = ""
+            for b in range(nb):
+                s_ += ("{$IFDEF T%d}\n" % k) if b == 0 else (rng.choice(["{$ELSEIF U%d}\n" % k, "{$ELSE}\n"]) if b < nb - 1 else "{$ELSE}\n")
+                s_ += tree(k - 1) if b == pos else "Y%d;\n" % b
+            return s_ + "{$ENDIF}\n"
+        out.append(("tree", d, tree(d)))
+    return out
+
+
 def run_c14(ctx):
     rng = ctx.rng
     wf = []
@@ -878,6 +910,8 @@ def run_c04(ctx):
         cases.append(ctx.case("nest-while", t, (40, 1, 1, 0, 4, 2, 0), meta={"depth": depth}))
         t = "".join("  " * d + ("case %s%d of\n" % ("K" * 40, d)) + "  " * d + " 1: begin\n" for d in range(depth)) + "Z;\n" + "".join("  " * d + "end;\n" + "  " * d + "end;\n" for d in reversed(range(depth)))
         cases.append(ctx.case("nest-case", t, (30, 0, 1, 0, 2, 2, 0), meta={"depth": depth}))
+    for kind, d, t in directive_ladders(rng, ctx.n([6, 12, 24, 40, 56], [4, 8, 12, 16, 24, 32, 40, 48, 56, 64])):
+        cases.append(ctx.case(kind, t, gen.DEFAULT_CFG, meta={"depth": d}))
     deep = ctx.case("witness-F11", "x := " + "(" * 200000, gen.DEFAULT_CFG, meta={"depth": 200000})
     rdeep = ctx.run_stream([deep], mode="fmt", per_case_timeout=30.0, case_limit_ms=60000)
     r = rdeep.get(deep.id)
